@@ -131,6 +131,11 @@ inductive TxFallback where
   | requestReading
 deriving Repr, DecidableEq
 
+/-- number of clock readings taken before the request is handed to the kernel -/
+def TxFallback.readingsBeforeSend : TxFallback → Nat
+  | .preSend => 2
+  | _ => 1
+
 /-- the readings taken up to and including the transmit timestamp: `cTxTime0`, `cTxTime1` and
     the remaining readings; `none`: the clock was asked more often than readings are given -/
 def txReadings (fb : TxFallback) (st : TxStamp) (rd : List Int) : Option (Int × Int × List Int) :=
